@@ -114,6 +114,7 @@ E2E_CANDS = {
     "r/test": "dir",
     "r/test/t.py": "file",
     "r/mytest.py": "file",
+    "r/testx.py": "file",  # its path has the directory path r/test as a raw string prefix
 }
 E2E_LINES = {
     "r/ab.py": ["import r.aab", "import r.test.t"],
@@ -147,6 +148,10 @@ PATTERN_SETS = [
     # only one leading / trailing '*' is a wildcard, further asterisks are literal text
     ("**ab.py",),
     ("*test**", "**"),
+    # wildcard-free literal paths: full match only - a sibling whose path merely starts with the text stays
+    (P + "r/test",),
+    (P + "r/a", P + "r/c(1)/k"),
+    (P + "r/ab.py", "r"),
 ]
 
 
